@@ -39,10 +39,91 @@ def model (topic : Bytes) (a b : OpInst) : Option String :=
       some s!"{showOutcome ra} {unread} {showOutcome rb} {if showOutcome rb == "hang" then "diff" else if showOutcome rb == showOutcome rf then "same" else "diff"}"
     | _, _ => none
 
+/-- three operations, the first answered under a foreign correlation id -/
+def modelChain (topic : Bytes) (delta : Nat) (a b c : OpInst) : Option String :=
+  let stream := frame (1 + delta) a.body ++ frame 2 b.body ++ frame 3 c.body
+  match runInstL false topic a (⟨stream, 1, false⟩, false) with
+  | none => none
+  | some (ra, c1) =>
+    match runInstL false topic b c1 with
+    | none => none
+    | some (rb, c2) =>
+      match runInstL false topic c c2 with
+      | none => none
+      | some (rc, _) =>
+        -- the driver stops a chain at the first hang
+        let sb := if showOutcome ra == "hang" then "hang" else showOutcome rb
+        let sc := if sb == "hang" then "hang" else showOutcome rc
+        some s!"{showOutcome ra} {sb} {sc}"
+
+/-- two requests in flight (both written before any response), the two frames arrive back to back -/
+def modelPipe (topic : Bytes) (idA : Nat) (a b : OpInst) : Option String :=
+  match runInstL true topic a (⟨frame idA a.body ++ frame (idA + 1) b.body, idA, false⟩, false) with
+  | none => none
+  | some (ra, c1) =>
+    match runInstL true topic b c1 with
+    | some (rb, _) => some s!"{showOutcome ra} {showOutcome rb}"
+    | none => none
+
+/-- A's frame is not an encoding of the layout: A and B fail (B was already in flight — it must not be served the rest
+of A's frame), or A reports a broker error, has skipped the rest, and B returns; a well-formed A: judged as usual and B
+returns.  Nobody hangs. -/
+def monitorPipe (a : OpInst) (impl : String) : Bool :=
+  match words impl with
+  | [ra, rb] =>
+    match specJudge a ra with
+    | none => (isFailStr ra && isFailStr rb) || (ra.startsWith "kafka:" && rb == "ok")   -- B's own response reports no error
+    | some okA => okA && isDone ra && isDone rb && (!isFailStr ra || isFailStr rb)
+  | _ => false
+
+/-- A answered under the size prefix `size` (any int32) instead of the body's length + 4, then B -/
+def modelSize (topic : Bytes) (size : Int) (a b : OpInst) : Option String :=
+  let stream := be4 ((size % 4294967296).toNat) ++ be4 1 ++ a.body ++ frame 2 b.body
+  match runInstL false topic a (⟨stream, 1, false⟩, false) with
+  | none => none
+  | some (ra, c1) =>
+    match runInstL false topic b c1 with
+    | none => none
+    | some (rb, _) => some s!"{showOutcome ra} {if showOutcome ra == "hang" then "hang" else showOutcome rb}"
+
+/-- a size prefix below 4 is a framing error: A and B fail (and return); otherwise only "both return" is demanded
+(what a lying prefix does to the stream is judged by model agreement) -/
+def monitorSize (size : Int) (impl : String) : Bool :=
+  match words impl with
+  | [ra, rb] => if size < 4 then isFailStr ra && isFailStr rb else isDone ra && isDone rb
+  | _ => false
+
+/-- after a framing error every later operation fails (and returns: `hang` is not a failure, it is a hang) -/
+def monitorChain (impl : String) : Bool :=
+  match words impl with
+  | [ra, rb, rc] => isFailStr ra && isFailStr rb && isFailStr rc
+  | _ => false
+
 def step (line : String) : String :=
   match line.splitOn " => " with
   | [req, impl] =>
     match words req with
+    | ["c11x", t, d, sa, ha, sb, hb, sc, hc] =>
+      match ofHex t, d.toNat?, parseInst sa ha, parseInst sb hb, parseInst sc hc with
+      | some topic, some delta, some a, some b, some c =>
+        match modelChain topic delta a b c with
+        | some m => s!"model={m} holds={if monitorChain impl then 1 else 0}"
+        | none => "bad-op"
+      | _, _, _, _, _ => "bad-args"
+    | ["c11p", t, ia, sa, ha, sb, hb] =>
+      match ofHex t, ia.toNat?, parseInst sa ha, parseInst sb hb with
+      | some topic, some idA, some a, some b =>
+        match modelPipe topic idA a b with
+        | some m => s!"model={m} holds={if monitorPipe a impl then 1 else 0}"
+        | none => "bad-op"
+      | _, _, _, _ => "bad-args"
+    | ["c11z", t, z, sa, ha, sb, hb] =>
+      match ofHex t, z.toInt?, parseInst sa ha, parseInst sb hb with
+      | some topic, some size, some a, some b =>
+        match modelSize topic size a b with
+        | some m => s!"model={m} holds={if monitorSize size impl then 1 else 0}"
+        | none => "bad-op"
+      | _, _, _, _ => "bad-args"
     | ["c11", t, sa, ha, sb, hb] =>
       match ofHex t, parseInst sa ha, parseInst sb hb with
       | some topic, some a, some b =>
